@@ -73,6 +73,8 @@ var NsSels = []*wm.Sel{
 	{}, ml("team", "a"), ml(wm.NSNameKey, "ns2"), me("team", "NotIn", "a"), me("team", "Exists"),
 	me(wm.NSNameKey, "In", "ns1", "default"),
 	ml("team", ""),
+	// the name of ns2 together with a label ns2 does not carry: selects no namespace
+	{ML: map[string]string{wm.NSNameKey: "ns2", "team": "a"}},
 }
 
 var Cidrs = []wm.NPPeer{
@@ -84,6 +86,9 @@ var Cidrs = []wm.NPPeer{
 	{CIDR: "10.1.2.3/8"},
 	// IPv6 blocks and excepts (dual-stack policies): no IPv4 address is in them
 	{CIDR: "fd00::/8"}, {CIDR: "::/0", Except: []string{"fd00::/8"}}, {CIDR: "10.0.0.0/8", Except: []string{"10.1.0.0/16", "fd00::/8"}},
+	// exactly the one address the tool gives as node address to the pods it generates for workload objects: an external
+	// address like any other in the tool's stated model
+	{CIDR: "127.0.0.1/32"},
 }
 
 func SelPeers() []wm.NPPeer {
